@@ -417,6 +417,12 @@ type idxUse struct {
 	delta int64
 }
 
+// planeIndexUsesIn: as planeIndexUses; in a worker method the plane array is reached through the method's own
+// receiver, which the caller bound to its receiver.
+func planeIndexUsesIn(p *Prog, f *ssa.Function, iv ssa.Value, method bool) []idxUse {
+	return planeIndexUses(p, f, iv)
+}
+
 func planeIndexUses(p *Prog, f *ssa.Function, iv ssa.Value) []idxUse {
 	var out []idxUse
 	var visit func(v ssa.Value, delta int64, depth int)
@@ -466,12 +472,17 @@ func planeIndexUses(p *Prog, f *ssa.Function, iv ssa.Value) []idxUse {
 					c = &y.Call
 				}
 				callee := c.StaticCallee()
-				if callee == nil || callee.Parent() != f {
+				if callee == nil || callee.Blocks == nil {
+					continue
+				}
+				// a closure of f, or a worker method/function of the same package that receives the index
+				// (go b.clearPlane(j, ...)): the plane is indexed in there
+				if callee.Parent() != f && (fnPkgPath(callee) != fnPkgPath(f) || depth > 1) {
 					continue
 				}
 				for ai, a := range c.Args {
 					if a == v && ai < len(callee.Params) {
-						for _, u := range planeIndexUses(p, callee, callee.Params[ai]) {
+						for _, u := range planeIndexUsesIn(p, callee, callee.Params[ai], callee.Parent() != f) {
 							out = append(out, idxUse{x.(ssa.Instruction), delta + u.delta})
 						}
 					}
